@@ -237,19 +237,21 @@ Proof.
 Qed.
 
 (* ---------- records behind an authority ---------- *)
-Lemma hier_cbb pre se ue hs he hi po segs last q f : front_auth se pre ->
+Lemma hier_cbb pre se ue hs he hi po segs last q f : front_pre se pre ->
   cannot_be_a_base (hier_url pre se ue hs he hi po segs last q f) = Some false.
 Proof.
-  intros (A & R & -> & <-). unfold cannot_be_a_base, u_slice_from, hier_url. cbn [ser scheme_end].
-  rewrite slice_from_o_some by (rewrite !nlen_app; unfold nlen; cbn [length]; lia).
-  rewrite <- !app_assoc. rewrite nskipn_app_add. reflexivity.
+  intros [(A & R & -> & <-)|(A & -> & <-)]; unfold cannot_be_a_base, u_slice_from, hier_url; cbn [ser scheme_end].
+  - rewrite slice_from_o_some by (rewrite !nlen_app; unfold nlen; cbn [length]; lia).
+    rewrite <- !app_assoc. rewrite nskipn_app_add. reflexivity.
+  - rewrite slice_from_o_some by (rewrite !nlen_app; unfold nlen; cbn [length]; lia).
+    rewrite <- !app_assoc. rewrite nskipn_app_add. reflexivity.
 Qed.
 
-Lemma hier_b_scheme pre se ue hs he hi po segs last q f : front_auth se pre ->
+Lemma hier_b_scheme pre se ue hs he hi po segs last q f : front_pre se pre ->
   b_scheme (hier_url pre se ue hs he hi po segs last q f) = nfirstn se pre.
 Proof.
-  intros (A & R & -> & <-). unfold b_scheme, hier_url. cbn [ser scheme_end].
-  rewrite <- !app_assoc. rewrite !nfirstn_app_len. reflexivity.
+  intros [(A & R & -> & <-)|(A & -> & <-)]; unfold b_scheme, hier_url; cbn [ser scheme_end];
+    rewrite <- !app_assoc; rewrite !nfirstn_app_len; reflexivity.
 Qed.
 
 (* ---------- what MR_ok says about two such records with the same front ---------- *)
@@ -259,10 +261,11 @@ Proof.
   cbn [forallb]. unfold nonempty at 1. rewrite H1, (IH H2). reflexivity.
 Qed.
 
-Lemma mr_ok_hier pre se ue hs he hi po bsegs blast bq bf tsegs tlast tq tf :
-  front_auth se pre ->
+Lemma mr_ok_hier pre se ue hs he hi po se' ue' hs' he' hi' po' bsegs blast bq bf tsegs tlast tq tf :
+  cannot_be_a_base (hier_url pre se ue hs he hi po bsegs blast bq bf) = Some false ->
+  cannot_be_a_base (hier_url pre se' ue' hs' he' hi' po' tsegs tlast tq tf) = Some false ->
   forallb no_slash bsegs = true -> no_slash blast = true -> forallb no_slash tsegs = true -> no_slash tlast = true ->
-  mr_ok (hier_url pre se ue hs he hi po bsegs blast bq bf) (hier_url pre se ue hs he hi po tsegs tlast tq tf) = true ->
+  mr_ok (hier_url pre se ue hs he hi po bsegs blast bq bf) (hier_url pre se' ue' hs' he' hi' po' tsegs tlast tq tf) = true ->
   forallb nonempty bsegs = true /\ forallb nonempty tsegs = true
   /\ existsb starts_with_wdl (([] :: bsegs) ++ ([] :: tsegs) ++ [blast; tlast]) = false
   /\ forall ra rb, skip_common bsegs tsegs = (ra, rb) ->
@@ -270,11 +273,11 @@ Lemma mr_ok_hier pre se ue hs he hi po bsegs blast bq bf tsegs tlast tq tf :
        /\ (ra = [] -> has_scheme_b (match rb with s :: _ => s | [] => if list_eqb blast tlast then [] else tlast end) = false)
        /\ (ra = [] -> rb = [] -> list_eqb blast tlast = true -> tq = None -> bq = None).
 Proof.
-  intros Hfa Hb Hbl Ht Htl H. unfold mr_ok, mr_class in H.
-  rewrite !(hier_cbb pre se ue hs he hi po) in H by exact Hfa.
+  intros Hcb1 Hcb2 Hb Hbl Ht Htl H. unfold mr_ok, mr_class in H.
+  rewrite Hcb1, Hcb2 in H.
   rewrite !hier_path in H.
   change (path_start (hier_url pre se ue hs he hi po bsegs blast bq bf)) with (nlen pre) in H.
-  change (path_start (hier_url pre se ue hs he hi po tsegs tlast tq tf)) with (nlen pre) in H.
+  change (path_start (hier_url pre se' ue' hs' he' hi' po' tsegs tlast tq tf)) with (nlen pre) in H.
   rewrite !hier_pre_of in H. rewrite list_eqb_refl in H. cbn [negb] in H.
   change (starts_with [47] (path_text bsegs blast)) with true in H.
   change (starts_with [47] (path_text tsegs tlast)) with true in H. cbn [andb negb] in H.
@@ -288,7 +291,7 @@ Proof.
   destruct (existsb starts_with_wdl (([] :: bsegs) ++ ([] :: tsegs) ++ [blast; tlast])) eqn:E3; [exfalso; lia|].
   split; [apply existsb_nil_nonempty; exact E1|]. split; [apply existsb_nil_nonempty; exact E2|]. split; [reflexivity|].
   intros ra rb Es. cbn [skip_common list_eqb] in H. rewrite Es in H.
-  change (query_start (hier_url pre se ue hs he hi po tsegs tlast tq tf)) with (qf_qs (nlen (pre ++ path_text tsegs tlast)) tq) in H.
+  change (query_start (hier_url pre se' ue' hs' he' hi' po' tsegs tlast tq tf)) with (qf_qs (nlen (pre ++ path_text tsegs tlast)) tq) in H.
   change (query_start (hier_url pre se ue hs he hi po bsegs blast bq bf)) with (qf_qs (nlen (pre ++ path_text bsegs blast)) bq) in H.
   split; [|split].
   - intros -> -> El ->. cbn [nil_segs andb is_nil negb] in H. rewrite El in H. cbn [negb andb length] in H.
